@@ -160,3 +160,25 @@ func VH_C19_PostIsStoredInBoardFormat_sym() {
 	vAssert("file_exists", i >= 0)
 	vAssertEqBytes("disk_is_the_served_board", vfs.data[i], board.data)
 }
+
+// Reloading the board from its file (start-up, SIGHUP): every byte of the file is kept as it is - Mac-Roman letters
+// and bullets are bytes >= 0x80 and no valid UTF-8 - except that a line feed becomes the board's carriage return.
+func VH_C19_ReloadKeepsEveryByte_sym() { c19Reload(vBytes("file", 300)) }
+
+// the same for every file of up to 2 bytes, each length on its own (cheap whatever the implementation decodes)
+func VH_C19_ReloadKeepsEveryByteShortFiles_sym() { c19Reload(vBytesEach("file", 2)) }
+
+func c19Reload(file []byte) {
+	vfsReset()
+	vfs.put("/cfg/MessageBoard.txt", file)
+	f := &FlatNews{filePath: "/cfg/MessageBoard.txt"}
+	vAssert("reload_ok", f.Reload() == nil)
+	vAssert("reload_keeps_length", len(f.data) == len(file))
+	k := vInt("any_index")
+	vAssume(k >= 0 && k < len(file) && k < len(f.data))
+	want := file[k]
+	if want == '\n' {
+		want = '\r'
+	}
+	vAssert("reload_keeps_every_byte", f.data[k] == want)
+}
